@@ -6,9 +6,15 @@ import Vanguard.Lemmas.Serve
   nil sinks and impossible slices → the `panic` flag).  Proved here: every path that *reports* an
   outcome to the client — `reportError`, `reportEnd`, `flushHeaders`, for every state, error and
   client protocol — is panic-free, because the status lookup is total for every code (C04).
-  Partial: panic-freedom of the whole `serve` (all writer/reader loops) is not yet a theorem; it is
-  covered by the correspondence, where `panic=0` is part of every compared observation, and loop
-  termination is by construction (all loops are fuelled and structurally recursive).
+  And **the loop of `envelopingWriter.Write` terminates for every writer state and every byte string
+  the backend writes** (`ewLoop_fuel`, `ewLoop_enough`): the model's loop is fuelled; the theorem
+  shows by a decreasing measure (bytes left, envelope/body phase) that the fuel `Write` provides is
+  never exhausted - more fuel never changes the result.  The decrease relies on the latch
+  `if w.err != nil { return }` at the top of the loop, the very check whose removal makes the real
+  loop spin (seeded change C11_1).
+  Partial: panic-freedom of the whole `serve` is not a theorem; it is covered by the
+  correspondence, where `panic=0` is part of every compared observation, and a watchdog in the
+  harness reports a call that does not return.
 -/
 namespace Vanguard.C11
 open Vanguard
@@ -32,5 +38,131 @@ theorem report_error_never_panics (w : World) (st : St) (err : Err) : (reportErr
 
 /-- Non-vacuity: an out-of-range code on a Connect unary client goes through the lookup. -/
 example : httpStatusFromRPC 17 = some 500 ∧ httpStatusFromRPC 4294967295 = some 500 := by decide
+
+
+/-! ### termination of the re-framing writer's loop -/
+
+theorem ewWritePiece_flags (w : World) (st : St) (e : EW) (piece : Bytes) :
+    (ewWritePiece w st e piece).2.1.writingEnvelope = e.writingEnvelope ∧
+    (ewWritePiece w st e piece).2.1.remaining = e.remaining := by
+  unfold ewWritePiece
+  split
+  · exact ⟨rfl, rfl⟩
+  · split
+    · exact ⟨rfl, rfl⟩
+    · exact ⟨rfl, rfl⟩
+    · split <;> exact ⟨rfl, rfl⟩
+    · exact ⟨rfl, rfl⟩
+
+theorem ewEnvelopeWritten_not_writing (w : World) (st : St) (e : EW) :
+    (ewEnvelopeWritten w st e).2.1.writingEnvelope = false := by
+  unfold ewEnvelopeWritten
+  simp only
+  repeat' split
+  all_goals rfl
+
+/-- The loop measure: twice the bytes still to be processed, plus one while a message body (not an
+    envelope) is being consumed. -/
+def mu (e : EW) (data : Bytes) : Nat := 2 * data.length + (if e.writingEnvelope then 0 else 1)
+
+/-- While an envelope is being collected at least one of its bytes is still missing. -/
+def EnvInv (e : EW) : Prop := e.writingEnvelope = true → 1 ≤ e.remaining
+
+
+theorem ewLoop_err (w : World) (tb : Tables) (n : Nat) (st : St) (e : EW) (d : Bytes) (h : e.err = true) :
+    ewLoop w tb (n + 1) st e d = (st, e, true, false) := by
+  unfold ewLoop; simp [h]
+
+/-- **Fuel adequacy = termination of `envelopingWriter.Write`'s loop**: once the fuel exceeds the
+    measure, more fuel changes nothing - the loop never runs out of steps, for any writer state
+    and any bytes the backend writes. -/
+theorem ewLoop_fuel (w : World) (tb : Tables) : ∀ (n : Nat) (st : St) (e : EW) (data : Bytes),
+    EnvInv e → mu e data < n → ewLoop w tb n st e data = ewLoop w tb (n + 1) st e data := by
+  intro n
+  induction n with
+  | zero => intro _ _ _ _ h; omega
+  | succ m ih =>
+    intro st e data hinv hmu
+    unfold ewLoop
+    by_cases herr : e.err = true
+    · simp [herr]
+    · simp only [herr, Bool.false_eq_true, if_false]
+      by_cases hlt : (data.length : Int) < e.remaining
+      · simp [hlt]
+      · simp only [hlt, if_false]
+        have hflags := ewWritePiece_flags w st e (data.take e.remaining.toNat)
+        generalize hr1 : ewWritePiece w st e (data.take e.remaining.toNat) = r1 at hflags ⊢
+        obtain ⟨s1, e1, f1, p1⟩ := r1
+        simp only at hflags ⊢
+        obtain ⟨hw1, hrem1⟩ := hflags
+        by_cases hbad : (f1 || p1) = true
+        · simp [hbad]
+        · simp only [hbad, Bool.false_eq_true, if_false]
+          have hle : e.remaining ≤ (data.length : Int) := by omega
+          have hrest : (data.drop e.remaining.toNat).length = data.length - e.remaining.toNat := List.length_drop
+          generalize he2 : ({ e1 with remaining := e1.remaining - ↑e.remaining.toNat } : EW) = e2
+          have hw2 : e1.writingEnvelope = e.writingEnvelope := hw1
+          by_cases hw : e1.writingEnvelope = true
+          · -- an envelope has been completed
+            simp only [hw, if_true]
+            have hnw := ewEnvelopeWritten_not_writing w s1 e2
+            generalize hr2 : ewEnvelopeWritten w s1 e2 = r2 at hnw ⊢
+            obtain ⟨s2, e3, f2, p2⟩ := r2
+            simp only at hnw ⊢
+            by_cases hbad2 : (f2 || p2) = true
+            · simp [hbad2]
+            · simp only [hbad2, Bool.false_eq_true, if_false]
+              apply ih
+              · intro h; rw [hnw] at h; cases h
+              · have hwe : e.writingEnvelope = true := hw2 ▸ hw
+                have h1 : 1 ≤ e.remaining := hinv hwe
+                unfold mu at hmu ⊢
+                simp only [hwe, if_true, hnw, Bool.false_eq_true, if_false, hrest] at hmu ⊢
+                omega
+          · have hwf : e1.writingEnvelope = false := by simpa using hw
+            have hwe : e.writingEnvelope = false := hw2 ▸ hwf
+            simp only [hwf, Bool.false_eq_true, if_false]
+            by_cases ht : e1.currentIsTrailer = true
+            · simp only [ht, if_true]
+              split
+              · generalize hr3 : handleEndMessage w tb s1 _ _ true = r3
+                obtain ⟨s2, err, p2⟩ := r3
+                simp only
+                by_cases hbad3 : (err.isSome || p2) = true
+                · simp [hbad3]
+                · simp only [hbad3, Bool.false_eq_true, if_false]
+                  by_cases hre : (data.drop e.remaining.toNat).isEmpty = true
+                  · simp [hre]
+                  · simp only [hre, Bool.false_eq_true, if_false]
+                    -- the writer is latched: the next round returns at once, with any fuel ≥ 1
+                    have hm : ∃ m', m = m' + 1 := by
+                      unfold mu at hmu; simp only [hwe, Bool.false_eq_true, if_false] at hmu
+                      exact ⟨m - 1, by omega⟩
+                    obtain ⟨m', rfl⟩ := hm
+                    rw [ewLoop_err w tb m' _ _ _ rfl, ewLoop_err w tb (m' + 1) _ _ _ rfl]
+              · rfl
+            · simp only [ht, Bool.false_eq_true, if_false]
+              apply ih
+              · intro _; simp
+              · unfold mu at hmu ⊢
+                simp only [hwe, Bool.false_eq_true, if_false, if_true, hrest] at hmu ⊢
+                omega
+
+
+/-- The fuel `ewWrite` gives its loop is always enough: any additional fuel gives the same result. -/
+theorem ewLoop_enough (w : World) (tb : Tables) (st : St) (e : EW) (data : Bytes) (hinv : EnvInv e) :
+    ∀ k, ewLoop w tb (2 * data.length + 4 + k) st e data = ewLoop w tb (2 * data.length + 4) st e data := by
+  intro k
+  induction k with
+  | zero => rfl
+  | succ k ih =>
+    rw [← ih]
+    have hmu : mu e data < 2 * data.length + 4 + k := by
+      unfold mu; split <;> omega
+    exact (ewLoop_fuel w tb _ st e data hinv hmu).symm
+
+/-- `maybeInit` establishes the invariant for an enveloped backend. -/
+example : EnvInv { writingEnvelope := true, remaining := 5 } := by intro _; decide
+
 
 end Vanguard.C11
